@@ -29,6 +29,8 @@ CHECKS = {
    "After every crash image the store starts; each known fraction is wholly served or wholly gone; served fractions are the newest; a fraction with .del files in the image never serves again.", TRUST),
  "C17": ("storesim", "exploration", "DESIGN.md 7/C17", T + "seeded re-delivery histories incl. concurrent repeats under schedule exploration, seal and restart; set-semantics reference model",
    "Re-delivered documents are listed once and fetch their original bytes; totals, histograms, aggregations and document counts count them once while all copies sit in one fraction.", TRUST),
+ "C18": ("cachesim", "exploration", "DESIGN.md 7/C18", T + "seeded schedule exploration of concurrent cache callers and the cleaner on the real cache package; per-call invariants, accounting/bucket/limit invariants at quiescence, porcupine linearizability check of the lookup history against a register-with-eviction model",
+   "Explores interleavings of getOrCreate/save/recover/Cleanup/Rotate/ReleaseBuckets at lock and statement granularity: every lookup returns a finished value of the requested (cache,key) from a successful load, failures reach exactly the caller that ran the loader, no caller is parked forever, accounted size equals the sum of live entries, live caches stay managed, released ones are dropped, a quiet cleaning pass restores the limit.", TRUST),
  "C19": ("storesim", "fault_enumeration", "DESIGN.md 7/C19", T + "crash after the k-th persisted partial result / inside the atomic file write of the asynchronous searcher, restart, bounded liveness on the simulated clock, equality with the synchronous search and the model",
    "A restart is injected after any number of persisted partial results; the request must survive, resume, report done within one simulated hour and return the same ids, histogram and aggregations as the synchronous search.", TRUST),
 }
